@@ -96,7 +96,7 @@ fn sv_str(v: &SValue) -> String {
 }
 
 fn track_state(t: &Track) -> String {
-    format!("tp={} ch={} l={} o={} v={} q={} t={} key={}", t.timepos, t.channel, t.length, t.octave, t.velocity, t.qlen, t.timing, t.track_key)
+    format!("tp:{},ch:{},l:{},o:{},v:{},q:{},t:{},key:{}", t.timepos, t.channel, t.length, t.octave, t.velocity, t.qlen, t.timing, t.track_key)
 }
 
 fn run_pipeline(src: &str, debug: bool, lang: &str) -> (Song, Vec<Vec<Event>>, isize, Vec<u8>) {
